@@ -36,13 +36,14 @@ func main() {
 	counter := flag.Uint("counter", 0, "key counter")
 	out := flag.String("out", "", "output file")
 	lstatzk := flag.Uint("lstatzk", 80, "Lstatzk for non-default modulus lengths")
+	lm := flag.Uint("lm", 256, "Lm for non-default modulus lengths")
 	flag.Parse()
 
 	var params *gabikeys.SystemParameters
 	if p, ok := gabikeys.DefaultSystemParameters[*bits]; ok {
 		params = p
 	} else {
-		base := gabikeys.BaseParameters{LePrime: 120, Lh: 256, Lm: 256, Ln: uint(*bits), Lstatzk: *lstatzk}
+		base := gabikeys.BaseParameters{LePrime: 120, Lh: 256, Lm: *lm, Ln: uint(*bits), Lstatzk: *lstatzk}
 		params = &gabikeys.SystemParameters{BaseParameters: base, DerivedParameters: gabikeys.MakeDerivedParameters(base)}
 	}
 	sk, pk, err := gabikeys.GenerateKeyPair(params, *n, *counter, time.Unix(4000000000, 0))
